@@ -47,7 +47,7 @@ def _pair_baseline():
 
 def batch_oracle(pid, jobs, results, known):
     """C06 on integer-coded families: an (optimizer, encoding) pair that works on the pinned tree must not
-    start failing wholesale (fails in *all* of >= 5 runs of the batch)."""
+    start failing wholesale (fails in *all* of its >= 4 runs with documented parameter values in the batch)."""
     if pid != "C06":
         return []
     base = _pair_baseline()
@@ -57,6 +57,8 @@ def batch_oracle(pid, jobs, results, known):
             continue
         if r["family"] not in INT_FAMILIES or r.get("injected"):
             continue
+        if r.get("perturbed"):
+            continue        # "wholesale" is judged on the documented parameter values, not on perturbed ones
         k = f"{r['cell'][0]}|{r['family']}"
         t = tally.setdefault(k, {"n": 0, "fail": 0, "first": None, "keys": {}})
         t["n"] += 1
@@ -68,7 +70,7 @@ def batch_oracle(pid, jobs, results, known):
     out = []
     for k, t in sorted(tally.items()):
         status = base.get(k)
-        if status == "works" and t["n"] >= 5 and t["fail"] == t["n"]:
+        if status == "works" and t["n"] >= 4 and t["fail"] == t["n"]:
             opt, fam = k.split("|")
             cls = [opt, "pair_fails_wholesale", fam]
             if known.lookup(cls) is not None:
